@@ -307,7 +307,7 @@ KR = {0: '(Some {| k_shared := Bytes 1; k_salt := Bytes 2; k_mac := Bytes 3; k_u
 def model_text(history, run, variant):
     """repository 0 only (the second repository's entries live under paths repository 0 never lists)"""
     lines = ['From Coq Require Import List NArith Bool.', 'From Replicat Require Import Model.Crypto Model.Objects Model.Cache.',
-             'Import ListNotations.', 'Local Open Scope N_scope.']
+             'Import ListNotations.', 'Local Open Scope N_scope.', 'Set Printing Depth 1000000.']
     for u, t in KR.items():
         lines.append(f'Definition KR{u} : mode := {t}.')
     created = [(i, op) for i, op in enumerate(history) if op['op'] == 'snapshot' and op['client'] != 3]
